@@ -10,4 +10,5 @@ import GoImap.Props.C05
 #print axioms GoImap.C05.caps_advert
 #print axioms GoImap.C05.cap_names
 #print axioms GoImap.C05.step_same_input
+#print axioms GoImap.C05.backend_view
 #print axioms GoImap.C05.legacy_select_counterexample
